@@ -11,7 +11,7 @@ import tempfile
 
 prop, letter = sys.argv[1], sys.argv[2]
 src = sys.argv[3] if len(sys.argv) > 3 else "/tmp/mut_out/%s" % prop
-name = "%s%s" % (prop, letter)
+name = sys.argv[4] if len(sys.argv) > 4 else "%s%s" % (prop, letter)
 patch = os.path.join(src, "patch_%s.diff" % letter)
 demo = os.path.join(src, "demo_%s.py" % letter)
 notes = os.path.join(src, "notes_%s.md" % letter)
